@@ -259,7 +259,34 @@ def v3(run: Run, cy: CyProgram):
                     f"loops are {loops}")
 
 
+def v4(run: Run, prog: Program):
+    """Sibling agreement of the two relation builders: the horizontal builder
+    consults the missing-value switch like the natural one (missing samples
+    block visibility and stay isolated in *both* graph types)."""
+    from .idioms import truthiness_flags
+    vg = prog.classes.get("VisibilityGraph")
+    builders = {n: vg.methods.get(n) for n in ("visibility_relations",
+                                               "visibility_relations_horizontal")}
+    if any(m is None for m in builders.values()):
+        raise AnalysisError("VisibilityGraph relation builders vanished")
+    flags = {n: truthiness_flags(m.node, m.params[0]) for n, m in builders.items()}
+    mode = set().union(*flags.values()) - {"silence_level"}
+    for n, m in sorted(builders.items()):
+        missing = sorted(mode - flags[n])
+        run.oblige("V4", f"{m.qualname}:modes", not missing, sample={
+            "where": m.where, "consults": sorted(flags[n])})
+        if missing:
+            run.add("V4", f"{m.qualname}/missing-dispatch:" + ",".join(missing), m.where,
+                    f"{m.qualname} builds the graph without consulting "
+                    f"{['self.' + x for x in missing]}, which its sibling builder "
+                    f"dispatches on: with missing values the samples that are missing "
+                    f"are linked like ordinary samples instead of blocking visibility "
+                    f"and staying isolated")
+
+
 def check(run: Run, prog: Program, cy: CyProgram, sites):
+    run.rule("V4", "both relation builders (natural, horizontal) consult the "
+             "missing-value switch")
     run.rule("V1", "the two natural-visibility kernels agree (domains, slope, strict "
              "relation) and differ exactly by the missing-value conjunct and guard; "
              "all kernels store symmetrically and link iff the scan reaches j")
@@ -272,6 +299,7 @@ def check(run: Run, prog: Program, cy: CyProgram, sites):
     v1(run, cy)
     v2(run, prog)
     v3(run, cy)
+    v4(run, prog)
     n = report_sites(run, "V3", sites,
                      lambda s: "visibility_graph" in s.func.module.relpath)
     run.floor("V3 call sites", n, 5)
